@@ -454,3 +454,19 @@ for _pid, _rid in (("C04", "R04.11"), ("C03", "R03.9"), ("C18", "R18.9")):
     V(_pid, "twin: image numbers by floor division", "silent", (GEO, "    factors = np.floor(rel_vectors).astype(int)\n", "    factors = (rel_vectors // 1).astype(int)\n"))
 V("C08", "block form, positions inline, translation added before the rotation", "R08.7", (SYM, _HOM_A, _BLK_A),
   (SYM, _HOM_B, "            transformed_positions = np.dot(system.get_scaled_positions() + translation, rotation.T)\n"))
+
+# ------------------------------------------------------------------------------------------ C02 (borrowed rules under their own ids)
+def _borrow(src_pid, name, pid, rid):
+    v = next(v for v in VARIANTS if v["pid"] == src_pid and v["name"] == name)
+    VARIANTS.append(dict(v, pid=pid, expect=rid if v["expect"] != "silent" else "silent"))
+
+
+_borrow("C04", "corner origin + c computed with basis[1] (D20 regression)", "C02", "R02.1")
+_borrow("C04", "image numbers of the searched cell by integer cast instead of floor", "C02", "R02.1")
+_borrow("C04", "twin: image numbers by floor division", "C02", "silent")
+_borrow("C04", "periodic-vector counter used as cell-axis number (D19 regression)", "C02", "R02.2")
+_borrow("C17", "empty copy list reaches the averaging (D16 regression)", "C02", "R02.3")
+_borrow("C17", "strict smallest-cell filter in the 2D basis search (D17 regression)", "C02", "R02.3")
+_borrow("C03", "substituted atoms become members", "C02", "R02.5")
+_borrow("C01", "twin: cleaning returns rebuilt Cluster objects with the full clustering context", "C02", "silent")
+_borrow("C13", "cleaning returns rebuilt Cluster objects that forget the bond threshold", "C02", "R02.7")
